@@ -95,6 +95,17 @@ theorem stores_listed (c : Cfg) : storesListed c = true := Lemmas.Purity.stores_
     ISIMIP window function, which writes into its arguments, only ever receives copies (complete finite table) -/
 theorem callArgs_classified : callArgsJ.all callArgOk = true ∧ isimipWindowArgsFresh = true := by decide +kernel
 
+/-- seed-determinism, the static part: the only draw sites of the anchored files are the six guarded ones, each inside
+    a function the alias model knows (the three ISIMIP ones) or a `distribution` method / the CDFt SSR helper; a
+    configuration whose guards are all off reaches none of them.  (Complete finite table; that a deterministic
+    configuration leaves `np.random.get_state()` untouched and repeats bit-for-bit without re-seeding is checked on the
+    real code by tier B.) -/
+theorem rng_sites_guarded :
+    rngSitesJ.map (·.2) = [.cdftSSR, .isimipImpute, .isimipLower, .isimipUpper, .hurdleRandomization, .censoredModel] ∧
+    (∀ e w y h, (Cfg.cdft e w y false h).rngGuards = []) ∧
+    (∀ d t m, (Cfg.isimipWindow false d false false t m).rngGuards = []) := by
+  refine ⟨rfl, ?_, ?_⟩ <;> intros <;> rfl
+
 /-- the trusted classification, spelled out -/
 theorem trusted_alias_classification :
     [NpOp.name, .basicSlice, .fancyIndex, .boolIndex, .sort, .where_, .arith, .copy, .astype, .zerosLike, .emptyLike,
